@@ -384,6 +384,7 @@ func (c *Ctx) ruleDecoderExclusive(rule string) {
 					c.R.Ok(rule, k, pos, "read from the shared stream decoder", "in the read loop's call tree: one goroutine at a time (running flag)")
 				case len(held) > 0:
 					c.R.Ok(rule, k, pos, "read from the shared stream decoder", "executed with "+strings.Join(held, ", ")+" held")
+					c.sameTurnClause(rule, ro, fn, call, held)
 				case storesVersion(fn):
 					c.R.Ok(rule, k, pos, "read from the shared stream decoder", "the handshake; premise: ReadSchema precedes every Execute")
 				default:
@@ -396,6 +397,111 @@ func (c *Ctx) ruleDecoderExclusive(rule string) {
 	if n == 0 {
 		c.R.Unresolved(rule, "Decode calls of the ATP client")
 	}
+}
+
+// sameTurnClause: a reply that is read directly (no run IDs: it is matched to its request by position) must be read in
+// the turn in which the request was written - the write that precedes the read in the same call chain holds the same
+// mutex. Taking the turn for the read only lets a second caller write first and read second: both get the other's reply.
+func (c *Ctx) sameTurnClause(rule string, ro *atpRoles, decFn *ssa.Function, dec *ssa.Call, held []string) {
+	encodes := func(f *ssa.Function) bool {
+		for g := range c.reachSync(f) {
+			for _, bb := range g.Blocks {
+				for _, in := range bb.Instrs {
+					if call, ok := in.(*ssa.Call); ok && strings.HasSuffix(core.StaticCalleeName(&call.Call), "cbor/v2.Encoder).Encode") {
+						return true
+					}
+				}
+			}
+		}
+		return false
+	}
+	n := 0
+	for _, fn := range c.M.SortedFuncs(c.scopePkg("atp")) {
+		if !c.methodOrClosureOf(fn, ro.clientT) {
+			continue
+		}
+		var writes, reads []*ssa.Call
+		for _, b := range fn.Blocks {
+			for _, in := range b.Instrs {
+				call, ok := in.(*ssa.Call)
+				if !ok {
+					continue
+				}
+				if call == dec {
+					reads = append(reads, call)
+					continue
+				}
+				for _, callee := range c.M.Callees(&call.Call) {
+					if c.methodOrClosureOf(callee, ro.clientT) && encodes(callee) {
+						writes = append(writes, call)
+					}
+					if c.reachSync(callee)[decFn] {
+						reads = append(reads, call)
+					}
+				}
+			}
+		}
+		for _, w := range writes {
+			for _, r := range reads {
+				if w == r || !instrCanFollow(w, r) {
+					continue
+				}
+				n++
+				k := key(rule, c.M.Key(fn), sprintf("request #%d is written in the turn in which its reply is read", n))
+				heldAtWrite := map[string]bool{}
+				for _, l := range c.lockedAt(fn, w) {
+					heldAtWrite[l[strings.LastIndex(l, ".")+1:]] = true
+				}
+				same := false
+				for _, m := range held {
+					if heldAtWrite[m] {
+						same = true
+					}
+				}
+				if same {
+					c.R.Ok(rule, k, c.M.InstrPos(w), "write of a request whose reply is matched by position", "the write and the read that follows it are made under the same mutex ("+strings.Join(held, ", ")+")")
+				} else {
+					c.R.Bad(rule, k, c.M.InstrPos(w), "a request is written outside the turn in which its reply is read",
+						"the reply read at "+c.M.InstrPos(dec)+" is matched to its request by position only; the request is written at "+c.M.InstrPos(w)+" without "+strings.Join(held, " / ")+": two concurrent callers can write in one order and read in the other, and each returns the other's output as its own success")
+				}
+			}
+		}
+	}
+	if n == 0 {
+		c.R.Bad(rule, key(rule, c.M.Key(decFn), "the request of a directly read reply is written in the same call chain"), c.M.InstrPos(dec),
+			"no write of a request precedes the direct read of a reply in any client function", "the pairing of request and reply cannot be established")
+	}
+}
+
+// instrCanFollow: b can execute after a within one invocation of their function.
+func instrCanFollow(a, b ssa.Instruction) bool {
+	if a.Block() == b.Block() {
+		for _, in := range a.Block().Instrs {
+			if in == a {
+				return true
+			}
+			if in == b {
+				break
+			}
+		}
+	}
+	seen := map[*ssa.BasicBlock]bool{}
+	var walk func(x *ssa.BasicBlock) bool
+	walk = func(x *ssa.BasicBlock) bool {
+		for _, sc := range x.Succs {
+			if sc == b.Block() {
+				return true
+			}
+			if !seen[sc] {
+				seen[sc] = true
+				if walk(sc) {
+					return true
+				}
+			}
+		}
+		return false
+	}
+	return walk(a.Block())
 }
 
 // R-WORKDONE (C08 "never reports success for a run whose work-done message did not arrive intact"): CBOR decoding does
